@@ -26,6 +26,10 @@ type RaceCase struct {
 	Roots    int      `json:"roots"`
 	Keys     []string `json:"keys"`
 	Workers  [][]Op   `json:"workers"` // one script per goroutine; H>0 means "inside my own transaction"
+	// Prefill > 0: the database is first filled with that many keys (some overwritten) and closed; the
+	// program then runs on the reopened database whose collector period is 200 microseconds, so the
+	// database's own background work overlaps with start-up itself
+	Prefill int `json:"prefill,omitempty"`
 }
 
 // runRaceProgram is executed in the child (a -race build). Results are irrelevant: the oracle is
@@ -36,11 +40,23 @@ func runRaceProgram(rc RaceCase, dir string) {
 	w.Dir = dir
 	w.setCfg()
 	w.Cfg.Storage.GCPeriod = time.Millisecond // the pool's own collector runs overlap with the clients
+	ctx := context.Background()
+	if rc.Prefill > 0 {
+		w.Cfg.Storage.GCPeriod = time.Hour
+		if err := w.open(); err != nil {
+			say("openfail %v", err)
+			os.Exit(4)
+		}
+		for i := 0; i < rc.Prefill; i++ {
+			_ = w.DB.Set(ctx, fmt.Sprintf("fill-%d", i%(rc.Prefill*2/3+1)), []byte{byte(i)})
+		}
+		w.closeDB()
+		w.Cfg.Storage.GCPeriod = 200 * time.Microsecond
+	}
 	if err := w.open(); err != nil {
 		say("openfail %v", err)
 		os.Exit(4)
 	}
-	ctx := context.Background()
 	if rc.Warm {
 		_ = w.DB.Set(ctx, "warm", []byte("x"))
 		_, _ = w.DB.Get(ctx, "warm")
